@@ -225,7 +225,7 @@ func (g *genSet) buildDriver(overlay, out string) error {
 		for id, msg := range g.blame(se) {
 			if _, dup := g.broken[id]; !dup && g.written[id] {
 				g.broken[id] = msg
-				os.Remove(g.genFile[id])
+				os.Rename(g.genFile[id], g.genFile[id]+".broken")
 				removed++
 			}
 		}
@@ -312,7 +312,7 @@ func (g *genSet) buildAllQuiet() {
 		for id, msg := range g.blame(se) {
 			if _, dup := g.broken[id]; !dup && g.written[id] {
 				g.broken[id] = msg
-				os.Remove(g.genFile[id])
+				os.Rename(g.genFile[id], g.genFile[id]+".broken")
 				removed++
 			}
 		}
